@@ -90,6 +90,12 @@ func normalizeProgram(p0 *Program) (*Program, []string) {
 			next[name] = applySrcEdits(src, es)
 		}
 		np, err := LoadProgram(p0.Dir, "", next)
+		if err != nil && normDebug {
+			os.MkdirAll("/tmp/normfail", 0o755)
+			for name, b := range next {
+				os.WriteFile("/tmp/normfail/"+strings.ReplaceAll(strings.TrimPrefix(name, p0.Dir+"/"), "/", "__"), b, 0o644)
+			}
+		}
 		if err != nil {
 			nz.notes = append(nz.notes, fmt.Sprintf("normalisation round %d abandoned (the rewritten tree does not type-check: %v); rules run on the previous form", round+1, err))
 			return cur, nz.notes
@@ -609,10 +615,10 @@ func (fc *fileCtx) hoistFrom(s ast.Stmt, exprs []ast.Expr, start, end token.Pos)
 	if !ok {
 		return nil
 	}
+	// no enclosing block: the statement may declare variables the following statements use
 	return []srcEdit{
-		{fc.off(start), fc.off(start), "{\n" + txt + fc.nz.lineDir(start)},
+		{fc.off(start), fc.off(start), txt + fc.nz.lineDir(start)},
 		{fc.off(call.Pos()), fc.off(call.End()), tmp},
-		{fc.off(end), fc.off(end), "\n}" + fc.nz.lineDir(end)},
 	}
 }
 
@@ -1219,6 +1225,68 @@ func (fc *fileCtx) inlineSite(cs *callSite) (string, bool) {
 		contText = fc.text(cont.Lbrace, cont.Rbrace+1)
 	}
 	hinfo := h.f.Info()
+	// straight-line mode: the helper's only return is its last statement (or it has none). The body is
+	// spliced into the caller's block as it is - its own variables carry fresh names - and the return
+	// becomes the caller's assignment.
+	if direct {
+		nret := 0
+		var last ast.Stmt
+		if n := len(h.f.Body.List); n > 0 {
+			last = h.f.Body.List[n-1]
+		}
+		var only *ast.ReturnStmt
+		ast.Inspect(h.f.Body, func(n ast.Node) bool {
+			switch x := n.(type) {
+			case *ast.FuncLit:
+				return false
+			case *ast.ReturnStmt:
+				nret++
+				only = x
+			}
+			return true
+		})
+		straight := nret == 0 && len(pl.rvars) == 0
+		if nret == 1 && ast.Stmt(only) == last && (len(only.Results) == len(pl.rvars) || len(pl.rvars) == 0) {
+			straight = true
+		}
+		if straight {
+			body := pl.renderWith(h.f.Body.Lbrace+1, h.f.Body.Rbrace, named, false, func(x *ast.ReturnStmt, vals string, parts []string, defers string, sub func(x, y token.Pos) string) string {
+				if len(pl.rvars) == 0 {
+					return "_ = 0; " + defers
+				}
+				typed := make([]string, len(parts))
+				for i, pt := range parts {
+					typed[i] = pt
+					if i < len(x.Results) {
+						if tv, has := hinfo.Types[x.Results[i]]; has && (tv.IsNil() || tv.Value != nil) {
+							typed[i] = "(" + pl.rtypes[i] + ")(" + pt + ")"
+						}
+					}
+				}
+				switch {
+				case cs.lhsText != nil:
+					return strings.Join(cs.lhsText, ", ") + " := " + strings.Join(typed, ", ") + "; " + defers
+				case cs.lhs != nil:
+					return fc.text(cs.lhs[0].Pos(), cs.lhs[len(cs.lhs)-1].End()) + " " + cs.tok.String() + " " + strings.Join(typed, ", ") + "; " + defers
+				}
+				return strings.Join(targets, ", ") + " = " + strings.Join(typed, ", ") + "; " + defers
+			})
+			var b strings.Builder
+			b.WriteString(nz.lineDir(cs.at))
+			b.WriteString(pl.bindings())
+			b.WriteString(ndecls)
+			b.WriteString(nz.lineDir(h.f.Body.Lbrace))
+			b.WriteString(body)
+			b.WriteString(nz.lineDir(cs.at))
+			if cs.cont != nil {
+				// the caller's own error test follows unchanged
+				b.WriteString(nz.lineDir(cs.ifPos) + "if " + fc.text(cs.lhs[cs.errIdx].Pos(), cs.lhs[cs.errIdx].End()) + " != nil " + fc.text(cs.cont.Lbrace, cs.cont.Rbrace+1) + "\n")
+			}
+			b.WriteString("_ = 0")
+			nz.inlined[h.f.Name]++
+			return b.String(), true
+		}
+	}
 	// flat mode: every return of the helper is either a certain failure (which continues into a copy of
 	// the caller's error branch) or the final statement with a nil error. Then no jump is needed, the
 	// body is spliced into the caller's block and the last return becomes the caller's own assignment:
